@@ -411,3 +411,23 @@ def outparam_truthiness(ctx, funcs, rule='SIB'):
             else:
                 ctx.ok(rule, construct, f"filled by `{norm(filled[p])[:40]}`")
     return n
+
+
+def error_check_covers_all(ctx, fi, rule='SIB'):
+    """The description-level error flag looks at every component: the
+    trs_is_error()/is_error() call in ``fi`` does not switch a component off
+    with a constant False."""
+    calls = [c for c in walk_local(fi.node) if isinstance(c, ast.Call)
+             and (dotted(c.func) or '').split('.')[-1] in ('trs_is_error', 'is_error')]
+    construct = f"{fi.qualname}: the error check covers Twp, Rge and Sec"
+    if not calls:
+        ctx.undecided(rule, construct, 'no trs_is_error() call found')
+        return
+    for c in calls:
+        off = [k.arg for k in c.keywords if k.arg and isinstance(k.value, ast.Constant) and k.value.value is False]
+        off += [('twp', 'rge', 'sec')[i] for i, a in enumerate(c.args[:3])
+                if isinstance(a, ast.Constant) and a.value is False]
+        ctx.check(not off, rule, construct, f"`{norm(c)}`",
+                  f"`{norm(c)}` leaves out {off}: a tract whose {'/'.join(off)} is an error (e.g. a Twp/Rge without "
+                  f"section under copy_all: 154n97wXX) raises no error flag and the description is not flawed",
+                  key=f"{rule}|{fi.qualname}|error-check|{','.join(off)}", where=loc(fi, c))
